@@ -21,6 +21,41 @@ CHECKS = {
         "Trusted: Lean kernel + 3 standard axioms; model lean/Cfi/Container.lean; harness element classes with properties a0..a2; isinstance/== of Python ints represented by a class table and integer equality in Spec.C08 (isSub, meetsFilter).",
         "6/C08",
     ),
+    "C01": (
+        True,
+        "Lean 4 model of Field/Line text rendering and parsing with exact IEEE/decimal arithmetic (round, format, float(), int(), strftime/strptime) + decidable Spec.C01.holds evaluated on model and implementation + differential correspondence on structured layouts and float boundary families",
+        "Spec.C01.holds states the round trip (read-back = canonical values, re-written text identical, floats in the configured notation/separator, half-unit accuracy in exact arithmetic under |x|*10^D<2^51, maximal decimals). The theorems in Props/C01.lean cover the per-kind laws proved so far (see evidence.coverage.theorems); the statement is checked on every generated case against both the exact model and the real code, including layouts built through setter histories.",
+        "Trusted: Lean kernel; hand-written model lean/Cfi/{Text,PyInt,Dbl,Date,Field,Line}.lean validated against CPython on every case; float stability for all doubles is checked by correspondence, proved only for the clauses listed in the evidence.",
+        "6/C01",
+    ),
+    "C02": (
+        True,
+        "Lean 4 proof of the splice theorem (any alphabet, any target line) and of the single-field write statement + exhaustive small-space correspondence (kinds x size 0-6 x start 0-6 x target length 0-14 x value widths) against Field.write / Line.write",
+        "Theorems Props.C02.splice_spec (length, untouched prefix/suffix, span = value, position-wise), field_write_basic (missing values, literals, integers: full statement for every width/start/target), field_write_of_raw (floats/dates given the character shape of the rendering), field_write_bin (bytes), defaults (documented default geometry = constants regenerated from the code; a changed default breaks the build). Exhaustive enumeration of the small space every run.",
+        "Trusted: Lean kernel + standard axioms; model lean/Cfi/Field.lean tied by the correspondence; Generated.lean is regenerated from the code each run.",
+        "6/C02",
+    ),
+    "C03": (
+        True,
+        "Lean 4 proof of locality / short-line / no-stale-value over all lines + exhaustive correspondence over all strings up to length 3 (4 thorough) of an adversarial alphabet and all 65536 two-byte payloads, with the model's parsers validated against CPython's own int()/float()/strptime()/strip()",
+        "Theorems Props.C03: main_text/main_bin (the model returns the reference interpretation of the Python-clamped span; totality is the function's type), local_text/local_bin, prefix_irrelevant, suffix_irrelevant, short_line, empty_span_of_short, no_stale (any read sequence). The implementation is compared read by read, through one field object with failing reads interleaved.",
+        "Trusted: Lean kernel; the model's parsers (int/float grammar, strptime alternatives, UTF-8) are validated on every run against the interpreter on every generated span; directive set and separator domain as listed in assumptions.",
+        "6/C03",
+    ),
+    "C09": (
+        True,
+        "Lean 4 model of numpy's little-endian integer and IEEE binary16/32/64 encodings (exact nearest-even narrowing) + Spec.C09.holds + exhaustive correspondence over all int16 values and all float16 patterns every run",
+        "Spec.C09.holds: length = furthest field end, blank gaps, each field's bytes in its span, read-back = exact ints / floats rounded to the IEEE width / stripped literals / truncated dates / zero and blank for missing. Theorems Props.C09: byte-level bijection leBytes/ofLeBytes (all widths); the remaining per-kind theorems are listed in the evidence as they are completed.",
+        "Trusted: Lean kernel; model lean/Cfi/Bin.lean compared with numpy on every case (all 2-byte patterns exhaustively, halfway cases, subnormals, overflow); little-endian byte order asserted at start-up.",
+        "6/C09",
+    ),
+    "C11": (
+        True,
+        "Lean 4 proof that a delimited read is a function of its own line (no carry-over, one value per field, absent tokens None, surplus ignored) + differential correspondence on write/read/padded-read and on read sequences through one Line and through RegisterFile.read",
+        "Theorems Props.C11.no_carry, length_readDelim, go_missing, go_getElem. Spec.C11.holds (written = trimmed renderings joined by the delimiter; read-back canonical; padding irrelevant; every read of a sequence equals the model's read of that line alone) is evaluated on every case.",
+        "Trusted: Lean kernel; model lean/Cfi/Line.lean; for multi-character delimiters the domain guard is stronger than the property's wording (no character of the delimiter in a rendering).",
+        "6/C11",
+    ),
 }
 
 ALL = [f"C{i:02d}" for i in range(1, 21)]
